@@ -136,7 +136,7 @@ fn run_builder(stream: &[u8], cuts: &[usize], cov: &mut BTreeSet<(u8, u8)>) -> R
 fn connected_server(ver: Ver) -> ConnBox<u16> {
     let mut c = ConnBox::<u16>::new(RoleK::Server, Some(ver));
     let connect = rc::encode(
-        &AP::Connect { ver, clean: true, keep_alive: 0, client_id: b"c".to_vec(), will: None, user: None, pass: None, props: vec![] },
+        &AP::Connect { ver, clean: true, keep_alive: 1, client_id: b"c".to_vec(), will: None, user: None, pass: None, props: vec![] }, // keep alive in force: timer events are part of the compared sequences
         2,
     );
     let (_l, _n) = c.recv_all(&connect);
